@@ -64,6 +64,12 @@ func (l *evLog) add(e wEvent) int {
 	return e.Seq
 }
 
+func (l *evLog) size() int {
+	l.mu.Lock()
+	defer l.mu.Unlock()
+	return len(l.events)
+}
+
 func (l *evLog) snapshot() []wEvent {
 	l.mu.Lock()
 	defer l.mu.Unlock()
@@ -923,12 +929,13 @@ type storeWrap struct{ s *sender }
 func (t *storeWrap) Scan(allow func(sts.File) bool) ([]sts.File, time.Time, error) {
 	t.s.action("store:scan")
 	vfs.RestampTree(t.s.w.outDir, time.Now())
+	begin := t.s.w.log.size() // events before this point precede everything the scan looks at
 	files, tm, err := t.s.store.Scan(allow)
 	var names []string
 	for _, f := range files {
 		names = append(names, f.GetName())
 	}
-	t.s.w.log.add(wEvent{Kind: "scan", A: int64(len(files)), S: strings.Join(names, ","), Gen: t.s.gen})
+	t.s.w.log.add(wEvent{Kind: "scan", A: int64(len(files)), B: int64(begin), S: strings.Join(names, ","), Gen: t.s.gen})
 	t.s.action("store:scan:return")
 	return files, tm, err
 }
